@@ -1,5 +1,6 @@
 """E2 support: edge-split CFG, branch atoms with polarity, dominance under assumptions,
 must-pass-through, post-dominance, flow-insensitive data slices."""
+import os
 import re
 from . import model
 from .model import X, show, walk, leaves, norm_path
@@ -386,6 +387,142 @@ class Flow:
                         if pred(f) is False:
                             self._pruned.add(n)
         self._idom = None
+
+    def prune_contradicted(self):
+        """Opt-in feasibility pruning.  A switch edge is infeasible when it states `P is V1` for a plain field path P of a reference parameter
+        (`self.block_writer`), an edge dominating its block states `P is V0` with V0 != V1, and nothing that can run before the later test can
+        change P: no assignment to P or to a prefix of it, no mutable borrow of P or of a prefix that is stored in a named local, handed to a
+        call (other than Option::as_mut and its kin on P itself, which cannot change the variant) or built into a value, and no call that is
+        given the parameter itself.  The condition is deliberately over *every* block that can reach the test (not only those between the two
+        edges): the value the later test looks at may have been read into a temporary at any earlier point.
+        Returns the list of pruned edge nodes."""
+        body = self.body
+        x = self.x
+        flip = {"Some": "None", "None": "Some", "Ok": "Err", "Err": "Ok"}
+        params = {}
+        for l in range(1, body.argc + 1):
+            nm = body.names.get(l)
+            ty = body.locals[l].get("ty", "") if l < len(body.locals) else ""
+            if nm and ty.startswith("&"):
+                params[nm] = (l, ty.startswith("&mut"))
+
+        def pos(n):
+            out = []
+            for (a, t) in self.edge_facts(n):
+                if a[0] != "variant":
+                    continue
+                e = strip_plumbing(a[1])
+                while e[0] in ("ref", "deref"):
+                    e = e[1]
+                if e[0] != "var" or e[1] not in params or not e[2] or not re.match(r"^(\.\w+)+$", e[2]):
+                    continue
+                v = a[2] if t else (flip.get(a[2]) if re.match(r"^(std|core)::(option::Option|result::Result)<", (e[3] if len(e) > 3 and isinstance(e[3], str) else "")) else None)
+                if v:
+                    out.append((e[1], e[2], v))
+            return out
+
+        edges = {}
+        for b in body.blocks:
+            if b.cleanup or b.term.k != "switch":
+                continue
+            for k in range(len(b.term.targets) + 1):
+                ps = pos(("e", b.i, k))
+                if ps:
+                    edges[("e", b.i, k)] = ps
+        if not edges:
+            return []
+        preds = body.preds()
+        WL = re.compile(r"(^|::)(Option|Result)(::)?(<.*>)?::(as_mut|as_deref_mut)$")
+
+        def killed(root, path, bb):
+            P = root + path
+            rl, rmut = params[root]
+
+            def related(txt):
+                return P == txt or P.startswith(txt + ".")
+            region, st = set([bb]), [bb]
+            while st:
+                q = st.pop()
+                for pq in preds.get(q, []):
+                    if pq not in region and not body.blocks[pq].cleanup:
+                        region.add(pq)
+                        st.append(pq)
+            alias = {}      # local -> text of the place it mutably borrows
+            for _round in range(4):
+                n0 = len(alias)
+                for q in region:
+                    for s_ in body.blocks[q].stmts:
+                        if s_.k == "setdiscr":
+                            if related(show(x.place(s_.lhs), 300)):
+                                return "discriminant set at bb%d" % q
+                            continue
+                        if s_.k != "assign":
+                            continue
+                        ltxt = show(x.place(s_.lhs), 300)
+                        if related(ltxt) and not (s_.lhs[0] in alias and not s_.lhs[1]):
+                            return "assigned at bb%d" % q
+                        if s_.lhs[0] in alias and s_.lhs[1] and not ltxt.startswith(root):
+                            return "stored through an alias at bb%d" % q
+                        rv = s_.rv
+                        if rv.k in ("ref", "rawptr") and rv.j.get("mut"):
+                            rtxt = show(x.place(rv.place), 300)
+                            if related(rtxt) or (rv.place[0] in alias and not rtxt.startswith(root)):
+                                if s_.lhs[1] or s_.lhs[0] in body.names:
+                                    return "mutable borrow kept in a named place at bb%d" % q
+                                alias[s_.lhs[0]] = rtxt if related(rtxt) else alias[rv.place[0]]
+                            continue
+                        for o in rv.ops:
+                            if o.place is not None and o.place[0] in alias and not o.place[1]:
+                                if rv.k == "use" and not s_.lhs[1] and s_.lhs[0] not in body.names:
+                                    alias[s_.lhs[0]] = alias[o.place[0]]
+                                elif rv.k == "use" and not s_.lhs[1] and show(x.place((s_.lhs[0], ())), 50) == root:
+                                    alias[s_.lhs[0]] = alias[o.place[0]]     # the `self` of an inlined method
+                                else:
+                                    return "mutable borrow escapes at bb%d" % q
+                            if o.place is not None and o.place[0] == rl and not o.place[1] and rmut and rv.k != "use":
+                                return "the parameter is built into a value at bb%d" % q
+                            if o.place is not None and o.place[0] == rl and not o.place[1] and rmut and rv.k == "use":
+                                if s_.lhs[1] or (s_.lhs[0] in body.names and show(x.place((s_.lhs[0], ())), 50) != root):
+                                    return "the parameter is copied to a named place at bb%d" % q
+                                alias[s_.lhs[0]] = root
+                    t_ = body.blocks[q].term
+                    if t_.k in ("call", "tailcall"):
+                        if t_.dest is not None and related(show(x.place(t_.dest), 300)):
+                            return "assigned by a call at bb%d" % q
+                        cp = t_.callee_path() or ""
+                        for o in t_.args:
+                            if o.place is None or o.place[1]:
+                                continue
+                            if o.place[0] == rl and rmut:
+                                return "the parameter itself is handed to %s at bb%d" % (cp, q)
+                            if o.place[0] in alias and not (alias[o.place[0]] == P and WL.search(cp)):
+                                return "a mutable borrow of %s is handed to %s at bb%d" % (alias[o.place[0]], cp, q)
+                    elif t_.k == "drop" and t_.place is not None and related(show(x.place(t_.place), 300)):
+                        return "dropped at bb%d" % q
+                if len(alias) == n0:
+                    break
+            return None
+
+        dead = []
+        kcache = {}
+        for n, ps in edges.items():
+            bb = n[1]
+            doms = [d for d in self.dom_edges(bb) if d in edges and d[1] != bb]
+            for (root, path, v1) in ps:
+                if any((root, path) == (r0, p0) and v0 != v1 for d in doms for (r0, p0, v0) in edges[d]):
+                    kk = (root, path, bb)
+                    if kk not in kcache:
+                        kcache[kk] = killed(root, path, bb)
+                        if os.environ.get("FLAN_DEBUG_PRUNE"):
+                            print("prune?", body.func.path if getattr(body, "func", None) else "", kk, kcache[kk])
+                    if kcache[kk] is None:
+                        dead.append(n)
+                        break
+        for n in dead:
+            self._pruned.add(n)
+        if dead:
+            self._idom = None
+        return dead
 
     # ---- dominance ----------------------------------------------------------
     def idom(self):
